@@ -1,6 +1,6 @@
 (* C08 — prefix-compressed record lists resolve each key to its own entry. *)
 From Coq Require Import List NArith.
-From STH Require Import Lex Sdiff Index Index2 Index3 IndexSpec IndexSpec2 Store Codec.
+From STH Require Import Log Lex Sdiff Index Index2 Index3 IndexSpec IndexSpec2 Store Refine Full2 Codec Crash2 Statements Statements5.
 Import ListNotations.
 Open Scope N_scope.
 
@@ -62,3 +62,25 @@ Theorem C08_record_list_codec_roundtrip :
   forall l : list ent, Forall ent_ok l -> forall fuel : nat, (length l <= fuel)%nat -> dec_rl fuel (enc_rl l) = Some l.
 Proof. exact dec_enc_rl. Qed.
 Print Assumptions C08_record_list_codec_roundtrip.
+
+(* History form, on the index as the store drives it: after ANY history (keys of one bucket inserted, re-pointed by
+   overwrites and removed in any order, flushes, collectors and reopens in between) the index resolves every PRESENT key
+   to a location holding that key's latest value; an ABSENT key gets nothing or the location of some OTHER key; every
+   record list is sorted and prefix-free ([ordered]) with each stored prefix a non-empty prefix of its own full key. *)
+Theorem C08_index_resolves_every_key_after_any_history :
+  forall bits imx pmx imm (U : bytes -> Prop) ops,
+    bits < 32 -> 0 < imx -> 0 < pmx -> key_universe U ->
+    ops_ok_all U (init bits imx pmx imm) ops ->
+    let s := run_state (init bits imx pmx imm) ops in
+    let m := spec_state imm sempty ops in
+    (forall ik k v, m ik = Some (k, v) ->
+       exists e l, recs s (bkt bits ik) = Some l /\ In e l /\ eget (strp bits ik) l None = Some e /\
+                   idx_get (sidx s) ik = Some (eblk e) /\ pget s (eblk e) = PFound k v) /\
+    (forall ik, m ik = None ->
+       idx_get (sidx s) ik = None \/
+       exists b k' v' ik', idx_get (sidx s) ik = Some b /\ pget s b = PFound k' v' /\ mh_digest k' = Some ik' /\ ik' <> ik) /\
+    (forall b l, recs s b = Some l -> ordered l) /\
+    (forall b l e, recs s b = Some l -> In e l ->
+       epfx e <> [] /\ exists k v ik, sol s (eblk e) k v /\ mh_digest k = Some ik /\ bkt bits ik = b /\ Prefix (epfx e) (strp bits ik)).
+Proof. exact index_resolves_reachable. Qed.
+Print Assumptions C08_index_resolves_every_key_after_any_history.
